@@ -46,6 +46,8 @@ def scenario(sid, workload, timing, faults, dials=(), connacks=(), opts=None, in
             r["q"] = w["q"]
             if w.get("retain"):
                 r["retain"] = True
+            if w.get("pid"):
+                r["pid"] = w["pid"]
         elif w["k"] == "sub":
             r["subs"] = w["subs"]
         elif w["k"] == "unsub":
@@ -204,6 +206,14 @@ class Family:
         for sid, res in results.items():
             sc = byid[sid]
             if "crash" in res:
+                if "panic" not in res["crash"] and "fatal error" not in res["crash"] and "DATA RACE" not in res["crash"]:
+                    # the worker was killed by its supervisor (no output for the whole time limit) or died without a
+                    # Go panic: a driver that did not finish is no observation of the library
+                    self.stats["unfinished"] = self.stats.get("unfinished", 0) + 1
+                    self.verd.notes.append("scenario %s did not finish (worker killed without a panic); dropped" % sid)
+                    if self.stats["unfinished"] > max(3, len(scenarios) // 50):
+                        raise vlib.Infra("%d scenarios did not finish, e.g. %s" % (self.stats["unfinished"], sid))
+                    continue
                 self.stats["crashes"] += 1
                 kind, msg = crash_kind(res["crash"])
                 self.verd.witness(kind, "", msg, {"scenario": sc, "crash": res["crash"][-3000:]})
